@@ -509,6 +509,14 @@ fn ev_letter(e: &hk::Event) -> char {
 
 /// generous: the machine may be heavily loaded; a real hang ends the case
 const STEP_LIMIT: Duration = Duration::from_secs(20);
+/// steps that did not come back so far in this process: after two of them (the
+/// tree is reported as violating anyway) the following ones wait 3 s only, so that
+/// a change that blocks on an unannounced lock in many cases does not cost
+/// 20 s for each of them
+static HUNG_STEPS: std::sync::atomic::AtomicUsize = std::sync::atomic::AtomicUsize::new(0);
+fn step_limit() -> Duration {
+    if HUNG_STEPS.load(std::sync::atomic::Ordering::SeqCst) >= 2 { Duration::from_secs(3) } else { STEP_LIMIT }
+}
 
 /// what a thread hands back: results, spans are computed by the controller
 struct ThreadOut<E: El> {
@@ -730,7 +738,8 @@ fn exec_with<E: El>(case: &Case, prefix: &[usize], extend: bool) -> Exec {
     let mut first_step: Vec<Option<usize>> = vec![None; n];
     let mut cur_steps: Vec<Vec<usize>> = vec![vec![]; n];
     let mut completed: Vec<usize> = vec![0; n];
-    if !session.wait_quiescent(STEP_LIMIT) {
+    if !session.wait_quiescent(step_limit()) {
+        HUNG_STEPS.fetch_add(1, std::sync::atomic::Ordering::SeqCst);
         ex.end = "hung".into();
     }
     let mut k = 0usize;
@@ -769,7 +778,7 @@ fn exec_with<E: El>(case: &Case, prefix: &[usize], extend: bool) -> Exec {
             hk::Status::Parked { site, .. } => site.to_string(),
             _ => String::new(),
         };
-        let (end, evs) = session.grant(t, STEP_LIMIT);
+        let (end, evs) = session.grant(t, step_limit());
         let letters: String = evs.iter().map(ev_letter).collect();
         for e in &evs {
             match e {
@@ -795,6 +804,7 @@ fn exec_with<E: El>(case: &Case, prefix: &[usize], extend: bool) -> Exec {
         }
         k += 1;
         if end == hk::StepEnd::Hung {
+            HUNG_STEPS.fetch_add(1, std::sync::atomic::Ordering::SeqCst);
             ex.end = "hung".into();
         } else if letters.contains('S') {
             ex.end = "trap".into();
